@@ -176,7 +176,7 @@ theorem C07_kwargs_correct (params : List String) (dependsOn produces : Dict (T 
       if params.contains name && Dict.contains produces name then (Dict.get produces name).map (PyTree.bind (load true))
       else (Dict.get dependsOn name).map (PyTree.bind (load false)) := by
   unfold kwargsOf
-  simp only [Generated.dependsBeforeProduces, Generated.productsNeedParameter, Bool.not_true, Bool.false_or, ↓reduceIte]
+  simp only [Generated.productsNeedParameter, Bool.not_true, Bool.false_or]
   rw [Dict.get_update _ _ (by rw [Dict.keys_mapVals]; exact Dict.keys_filter_nodup _ _ hn)]
   rw [Dict.get_mapVals, Dict.get_mapVals, Dict.get_filter_key (fun k => params.contains k)]
   by_cases hp : name ∈ params <;> cases hg : Dict.get produces name <;> simp [hp, hg, Dict.contains]
